@@ -1029,3 +1029,39 @@ def quoted_literal(pos, n, density):
 
 
 QUOTED_POSITIONS = ["case_label", "case_label_rule", "aggregate", "argument", "where", "attribute_default"]
+
+
+# ------------------------------------------------------------------ exit-status discipline: inputs with a known sequence of reports
+def diag_runs():
+    """(tag, data, options, phases, messages): `phases` = the reports of parse / resolve / back end in the notation of the
+    model driver (W/E/X/D severity, s = with symbol, p = plain); `messages` = diagnostics that must appear on stderr, or None
+    when the resolver's own early returns make the number depend on pass order."""
+    out = []
+    clean = b"SCHEMA s;\nENTITY a;\n  v : INTEGER;\nEND_ENTITY;\nEND_SCHEMA;\n"
+    out.append(("clean", clean, [], ("-", "-", "-"), 0))
+    for k in (1, 3, 12):
+        calls = "".join(f"  y{i} := f(x, x, x);\n" for i in range(k))
+        loc = "".join(f"  y{i} : INTEGER;\n" for i in range(k))
+        w = f"SCHEMA s;\nFUNCTION f(x : INTEGER) : INTEGER;\nLOCAL\n{loc}END_LOCAL;\n{calls}  RETURN (x);\nEND_FUNCTION;\nEND_SCHEMA;\n".encode()
+        # any -w/-i switches the blanket "all warnings off" of main off; the named class itself is not used by the input
+        out.append((f"warnings:{k}", w, ["-i", "indexing"], ("-", ",".join(["Ws"] * k), "-"), k))
+        out.append((f"warnings_default:{k}", w, [], ("-", "-", "-"), 0))
+    for k in (1, 3, 12):
+        attrs = "".join(f"  v{i} : nosuch{i};\n" for i in range(k))
+        e = f"SCHEMA s;\nENTITY a;\n{attrs}END_ENTITY;\nEND_SCHEMA;\n".encode()
+        out.append((f"errors:{k}", e, [], ("-", ",".join(["Es"] * k), "-"), k))
+    out.append(("syntax", b"SCHEMA s;\nENTITY a;\n  v : ;\nEND_ENTITY;\nEND_SCHEMA;\n", [], ("Xs", "-", "-"), 1))
+    out.append(("syntax_at_end", b"SCHEMA s;\nENTITY a;\nEND_ENTITY;\n", [], ("Xs", "-", "-"), 1))
+    mixed = (b"SCHEMA s;\nENTITY a;\n  v : nosuch;\nEND_ENTITY;\nFUNCTION f(x : INTEGER) : INTEGER;\n  RETURN (f(x, x, x));\nEND_FUNCTION;\nEND_SCHEMA;\n")
+    out.append(("error_and_warning", mixed, ["-i", "indexing"], ("-", "Es,Ws", "-"), None))
+    return out
+
+
+def command_lines():
+    """(tag[:tools], argument vector, expected verdict of the model's `exit <tool> <verdict>`): invocations without a usable input file"""
+    return [("no_arguments", [], "usage"), ("only_B", ["-B"], "usage"), ("only_r", ["-r"], "usage"), ("unknown_option:check-express,exppp", ["-q", "{in}"], "usage"),       # the generators' own option handlers ignore unknown letters
+            ("option_without_value", ["-w"], "usage"), ("unknown_warning", ["-w", "nosuchwarning", "{in}"], "usage"),
+            ("unknown_warning_i", ["-i", "nosuchwarning", "{in}"], "usage"), ("version", ["-v"], "accepted"),
+            ("missing_file", ["/nonexistent/dir/x.exp"], "errors"), ("missing_file_B", ["-B", "/nonexistent/dir/x.exp"], "errors"),
+            ("directory_as_file", ["."], "errors"), ("debug_help", ["-d", "0", "{in}"], "accepted"), ("print_everything", ["-p", "E", "{in}"], "accepted")]
+
